@@ -671,6 +671,7 @@ func (g *pg) funcDef(i int) lang.Stmt {
 		g.protect["d"] = true
 	}
 	var body []lang.Stmt
+	var lateFns []fnInfo
 	if f.recur {
 		body = append(body, lang.If{C: lang.Binary{Op: "<=", L: lang.Name{N: "d"}, R: lang.Lit{V: lang.Int(0)}},
 			Then: []lang.Stmt{lang.Return{X: g.intExpr(0)}}})
@@ -709,10 +710,17 @@ func (g *pg) funcDef(i int) lang.Stmt {
 	}
 	if !f.void {
 		body = append(body, lang.Return{X: g.intExpr(2)})
+		if g.chance("defafterreturn", 10) {
+			// a helper written at the bottom of the body, behind the return: code
+			// that never runs, a definition all the same (and one that is called)
+			late := fnInfo{name: fmt.Sprintf("late%s", f.name), params: []string{"q"}}
+			body = append(body, lang.FuncDef{N: late.name, Params: late.params, Body: []lang.Stmt{lang.Return{X: lang.Binary{Op: "*", L: lang.Name{N: "q"}, R: lang.Lit{V: lang.Int(2)}}}}})
+			lateFns = append(lateFns, late)
+		}
 	} else if g.chance("tailifelsefn", 15) {
 		body = append(body, g.tailIfElse("nt"+f.name))
 	}
-	fns := g.fns
+	fns := append(g.fns, lateFns...)
 	nloop := g.nloop
 	nw := g.needWalker
 	*g = saved
